@@ -226,14 +226,7 @@ def check_matrices(ctx):
         ok = eye_ok and norm(a1) == W
         detail = f"blocks are ({short(a0)}, {short(a1)}): the identity block of size 2**n_total - 2**n_wrapped must come first, followed by the wrapped matrix"
     ctx.check(ok, R3, m.key, "diag(eye(2**n_total - 2**n_wrapped), wrapped.matrix)", detail, m)
-    # is_hermitian flag provenance on every MatrixFactoryGate construction in the gates module
-    for fi in mod.functions.values():
-        for c in body_walk(fi.node):
-            if isinstance(c, ast.Call) and (dotted(c.func) or "").split(".")[-1] == "MatrixFactoryGate":
-                flag = arg_or_kw(c, 4, "is_hermitian")
-                ok = flag is None or isinstance(flag, ast.Constant) or (isinstance(flag, ast.Name) and flag.id == "is_hermitian") or "is_hermitian" in norm(flag) or "adjoint" in norm(flag) or ".H" in norm(flag)
-                sym = flag is not None and any(x in norm(flag) for x in ("is_symmetric", "transpose", ".T "))
-                ctx.check(ok and not sym, R3, f"{fi.key}:is_hermitian-flag", "self-adjoint flag absent, literal, forwarded or from a Hermiticity test", f"{fi.qualname} builds a gate whose is_hermitian flag is {short(flag)}: not a Hermiticity test (a complex symmetric matrix would be treated as its own dagger)", f"{fi.module.relpath}:{c.lineno}")
+    check_flag_provenance(ctx, R3)
     # attributes poked onto frozen instances that influence dagger
     cgd = mod.classes["CustomGateDefinition"]
     call = cgd.methods.get("__call__")
@@ -274,6 +267,48 @@ def check_guard(ctx):
         ctx.check(okp, R4, f"{c.key}.__post_init__", "gates with free symbols are refused (power/exp need a numeric matrix)", f"{cname} no longer refuses gates with free symbols", pm or c)
 
 
+def _sound_hermiticity_test(e: ast.AST) -> bool:
+    """an expression that is true only for matrices equal to their conjugate transpose: a comparison with the adjoint, or
+    sympy's tri-state ``is_hermitian`` used positively (None -- undecidable, e.g. symbolic entries -- must count as False)"""
+    t = norm(e)
+    if isinstance(e, ast.Call) and dotted(e.func) == "bool" and len(e.args) == 1:
+        return _sound_hermiticity_test(e.args[0])
+    if isinstance(e, ast.Attribute) and e.attr == "is_hermitian":
+        return True
+    if isinstance(e, ast.Compare) and len(e.ops) == 1:
+        l, r = norm(e.left), norm(e.comparators[0])
+        if isinstance(e.ops[0], (ast.Is, ast.Eq)) and r == "True" and l.endswith(".is_hermitian"):
+            return True
+        if isinstance(e.ops[0], ast.Eq) and any(a == b.replace("X", o) for a, o in ((l, r), (r, l)) for b in ADJOINT_IDIOMS):
+            return True
+    if isinstance(e, ast.BoolOp) and isinstance(e.op, ast.And):
+        return any(_sound_hermiticity_test(v) for v in e.values)
+    return False
+
+
+def check_flag_provenance(ctx, rule: str):
+    """is_hermitian on every MatrixFactoryGate construction in the gates module: absent, a literal, the enclosing
+    function's own `is_hermitian` parameter / the copied gate's field, or a sound Hermiticity test (attributes set in the
+    same class are followed to the expression that defines them)."""
+    mod = ctx.repo.module(GATES)
+    for fi in mod.functions.values():
+        for c in body_walk(fi.node):
+            if isinstance(c, ast.Call) and (dotted(c.func) or "").split(".")[-1] == "MatrixFactoryGate":
+                flag = arg_or_kw(c, 4, "is_hermitian")
+                resolved = flag
+                if isinstance(flag, ast.Attribute) and norm(flag.value) == "self" and fi.cls is not None and flag.attr != "is_hermitian":
+                    defs = []
+                    for m in fi.cls.methods.values():
+                        for n in body_walk(m.node):
+                            if isinstance(n, ast.Call) and dotted(n.func) in ("object.__setattr__", "setattr") and len(n.args) == 3 and isinstance(n.args[1], ast.Constant) and n.args[1].value == flag.attr:
+                                defs.append(n.args[2])
+                            if isinstance(n, ast.Assign) and any(isinstance(t, ast.Attribute) and t.attr == flag.attr and norm(t.value) == "self" for t in n.targets):
+                                defs.append(n.value)
+                    resolved = defs[0] if len(defs) == 1 else None
+                ok = flag is None or isinstance(flag, ast.Constant) or (isinstance(flag, ast.Name) and flag.id == "is_hermitian") or (isinstance(flag, ast.Attribute) and flag.attr == "is_hermitian" and norm(flag.value) in ("self", "gate", "other")) or (resolved is not None and _sound_hermiticity_test(resolved))
+                ctx.check(ok, rule, f"{fi.key}:is_hermitian-flag", "self-adjoint flag absent, literal, forwarded or from a Hermiticity test", f"{fi.qualname} builds a gate whose is_hermitian flag is {short(flag)}" + (f" = {short(resolved)}" if resolved is not None and resolved is not flag else "") + ": not a test that the matrix equals its conjugate transpose (a complex symmetric matrix, or one whose Hermiticity sympy cannot decide, would be treated as its own dagger, so .dagger and Circuit.inverse return the gate itself)", f"{fi.module.relpath}:{c.lineno}")
+
+
 def check_dagger_semantics(ctx, rule: str):
     """What `gate.dagger` means for every gate the library can build (shared with C08, whose circuit
     inverse is reversed order + per-gate dagger): (a) Dagger.matrix is the conjugate transpose of the
@@ -300,6 +335,7 @@ def check_dagger_semantics(ctx, rule: str):
         r = returned_exprs(dd.node)
         ctx.check(len(r) == 1 and norm(r[0]) == "self.wrapped_gate", rule, dd.key + ":involution", "Dagger(g).dagger = g", f"Dagger.dagger returns {short(r[0]) if r else None}", dd)
     hermitian_flag_obligations(ctx, rule)
+    check_flag_provenance(ctx, rule)
 
 
 R7 = "C07-D7 dagger-of-power"
